@@ -1298,9 +1298,11 @@ class Compiler:
         fallback = identifier("__fallback", id(node))
         body += template("fallback = len(__stream)", fallback=fallback)
 
-        self._enter_assignment((node.name, ))
+        # The error variable is local to the fallback.
+        names = (node.name, )
+        backup = list(self._enter_assignment(names))
         fallback_body = self.visit(node.fallback)
-        self._leave_assignment((node.name, ))
+        fallback_body += self._leave_assignment(names)
 
         # The error records collected while the exception came up
         # through macro calls end here.
@@ -1318,7 +1320,7 @@ class Compiler:
             handlers=[ast.ExceptHandler(
                 type=ast.Tuple(elts=[Builtin("Exception")], ctx=ast.Load()),
                 name="__exc",
-                body=(error_assignment +
+                body=(backup + error_assignment +
                       template("del __stream[fallback:]", fallback=fallback) +
                       fallback_body
                       ),
